@@ -65,13 +65,15 @@ def run_case(case):
         weakly = False
         pool = corpus.derived_queries(rng, sig, conds, 4)
     else:
-        fam = rng.choices(['rand', 'chain', 'indep', 'd4'], [5, 2, 3, 1])[0]
+        # a truncated enumeration only matters when there are several minimal correction sets: shapes
+        # with independent rules per layer and tie-forcing queries are over-weighted
+        fam = rng.choices(['rand', 'chain', 'indep', 'd4', 'multiex'], [4, 1, 3, 1, 3])[0]
         kw = dict(nat=rng.randint(2, 4), ncond=rng.randint(2, 5)) if fam == 'rand' else {}
-        if system == 'c-inference' and fam in ('d4',):
+        if system == 'c-inference' and fam in ('d4', 'multiex'):
             fam = 'rand'
             kw = dict(nat=rng.randint(2, 4), ncond=rng.randint(2, 5))
         sig, conds, fam = gen.gen_base(rng, 'weak_or_strong' if weakly else 'strong', family=fam, **kw)
-        pool = gen.gen_queries(rng, sig, conds, 4, extra_atom_p=0.0)
+        pool = gen.gen_queries(rng, sig, conds, 4, extra_atom_p=0.0, p_tie=0.5)
     q1, q2 = pool[:3], pool[1:4]
     mode = 'extended' if weakly else 'strict'
     bdesc = {'atoms': len(sig), 'conditionals': len(conds)}
